@@ -6,7 +6,8 @@ import gen
 from core import derived_rng
 from util import call, quiet
 
-REQUIRED_THEOREMS = ['Usid.C01.toggle_involutive', 'Usid.C01.views_after_ops', 'Usid.C01.one_permutation']
+REQUIRED_THEOREMS = ['Usid.C01.coordinate_map', 'Usid.C01.coordinate_map_sorted', 'Usid.C01.wrapper_views',
+                     'Usid.C01.toggle_involutive', 'Usid.C01.views_after_ops', 'Usid.C01.one_permutation']
 RULE = ('generator datasets (1-3 dimensions per side, sizes 1-4 biased to 1 and equal sizes, every storage permutation '
         'reachable, dtypes float64/float32/complex128/compound, built with raw h5py); reshape_to_n_dims for '
         'sort_dims x lazy, with HDF5 and in-memory ancillaries; USIDataset(sort_dims in {F,T}) followed by a random '
